@@ -107,6 +107,16 @@ impl TruthTable<String> {
             outputs[index] = parse_output_column(&record)?;
         }
 
+        // The line count above also counts blank lines, which the reader skips.
+        if is_row_filled.iter().any(|is_filled| !is_filled) {
+            return Err(
+                TruthTableFromCsvError::MismatchedRecordCountAndVariableCount {
+                    variable_count: variable_column_index_map.len(),
+                    actual_row_count: is_row_filled.iter().filter(|is_filled| **is_filled).count(),
+                },
+            );
+        }
+
         Ok(TruthTable::new(
             variable_column_index_map.into_keys().collect(),
             outputs,
